@@ -3,8 +3,8 @@ package main
 import (
 	"fmt"
 	"go/token"
-	"regexp"
 	"go/types"
+	"regexp"
 	"sort"
 	"strings"
 
